@@ -3,6 +3,15 @@ package main
 // Per-property driver configuration. rule/assumptions go verbatim into the
 // evidence file; the counts next to them are measured by the test processes.
 var props = map[string]propCfg{
+	"C10": {
+		rule: "programs of a promise DSL (<=12 top-level operations over <=5 promise variables: new Promise with executors calling resolve/reject 0-3 times or stashing them, later settle calls, thenables with logging/throwing/getter/non-callable/native(Go) then, then/catch/finally chains with returning/throwing/non-callable/native(Go) handlers, Promise.resolve/reject/all/allSettled/race/any, async functions/arrows/methods with awaits nested to depth 3 and try/catch/finally, promises given an own 'then' (observing every lookup/call) or constructor=undefined, nested RunString from host functions) split into 1-3 runs (RunString, Callable, Callable of an async function) with Go-side calls between runs (Runtime.NewPromise resolve/reject, exported resolving functions as Callable, Runtime.New / AssertConstructor of Promise), optionally one interruptNow() at a logged point or a throw at top level; the reference model promref (ECMA-262 27.2 + Await + async function start, one FIFO queue drained when the outermost call returns) predicts the exact global log, Promise.State()/Result() of every variable after every outermost call, the HostPromiseRejectionTracker call sequence, an empty job queue and a clear interrupt flag after each call; sub-checks: programs (general generator), combinators (focused on all/allSettled/race/any with promises whose then calls its reactions directly), enum (exhaustive enumeration of all programs with <=3 operations over 2 variables from a reduced alphabet, each as 1 run / 1 Callable / split in 2 runs); a case is non-trivial when it contains >=2 then-chains/await sequences of different lengths, or a promise is resolved with a thenable/promise (a NewPromiseResolveThenableJob is queued), or a resolving function is called again after its latch was set; distinct = FNV-64 of the printed program text",
+		assumptions: []string{
+			"no Symbol.species / subclassing, iterables are array literals, handlers and thenables are the DSL's own logging functions",
+			"calls into the runtime are Run*, Callable, Constructor, Runtime.New and the NewPromise functions; property access from Go (Object.Get/Set running accessors) is not treated as a call that drains the queue",
+			"Go-side resolving functions are called only on the VM goroutine: between runs, or from host functions called by the running script/job",
+			"generated programs must terminate: a case whose model run exceeds 4000 jobs / call depth 400, or in which an interrupt/exception makes a later segment call a never-assigned function, is discarded (counted under excluded)",
+		},
+	},
 	"C16": {
 		race: true,
 		rule: "built with -race, the Go race detector is part of the oracle (every report is read back from GORACE log_path, attributed to the case that just ran and classified by the two racing goja functions). programs: one Program (G-syntax program biased to reference-holding constructs plus 1-4 hand-written fragments: stateful g/y regex literals of both engines, tagged templates, classes with private names/static blocks, eval/with dynamic scopes, constant folding, literal tables, lexical switch, source positions, run-time compilation) compiled once by Compile/MustCompile/Parse+CompileAST and run m in 1..20 times by each of n in {2,4,8,16} goroutines on runtimes of their own, released by one barrier and not synchronised afterwards; every observation (completion value or thrown value through a fixed describe function, tracked globals, log array) must equal that of an isolated sequential run (of the Program itself or of a separately compiled twin) and of one more sequential run afterwards; non-trivial = compiled, not excluded, the bytecode holds at least one regexp/template/class/private-name/dynamic-scope instruction and at least 2 goroutines' run intervals overlapped. prims: 2-9 primitive Values (ToValue of Go strings of 15..64 bytes still unscanned, concatenations of them, StringFromUTF16, JSON.stringify results, numbers, booleans, BigInts, NewSymbol/well-known/script-made symbols, Undefined/Null/NaN) made once and handed by vm.Set to n goroutines that apply 4-14 generated JS operations and 2-10 Go API calls, results compared with the same operations applied sequentially to separately built equal values; non-trivial = at least one shared value was an unscanned imported string. xrt: every (28 object kinds of runtime A) x (14 conversion routes into runtime B) pair must raise the documented TypeError. distinct = FNV-64 of the whole case",
